@@ -562,10 +562,15 @@ func (i *Iterator[T]) ProcessParallel(
 		wg := &WaitGroup{}
 
 		operation := fn.WithRecover().WithErrorFilter(func(err error) error {
-			return ft.WhenDo(
-				!opts.CanContinueOnError(err),
-				ft.Wrapper(io.EOF),
-			)
+			if opts.CanContinueOnError(err) {
+				return nil
+			}
+			// this worker may not continue: stop it (io.EOF ends
+			// its ReadAll loop) and cancel the group so that the
+			// other workers stop at their next read. ReadAll turns
+			// io.EOF into nil, so the observer below never sees it.
+			cancel()
+			return io.EOF
 		})
 
 		splits := i.Split(opts.NumWorkers)
